@@ -388,6 +388,27 @@ def main():
         batch.trace(f"T/stream/{seed}", [{"e": "stream", "a": rk[: len(sa)], "b": rk[len(sa):]}])
         stats["events"] += 1
 
+    # gene-backed sources over the same genes produce the same stream - also when two of them are alive and draw in turns
+    from geneticengine.random.sources import NativeRandomSource as _N
+    genes = [_N(77).randint(0, MAXS) for _ in range(24)]
+    for cname, mk in (("GEListWrapper", lambda: GEList(list(genes))),
+                      ("StackListWrapper", lambda: StackList(list(genes))),
+                      ("StructuredListWrapper", lambda: StructuredListWrapper({"$infrastructure": list(genes), "k2": list(genes)}))):
+        def draws(s, n):
+            return [s.randint(0, 9 + i) for i in range(n)]
+        alone = draws(mk(), 12)
+        s1, s2 = mk(), mk()
+        turn1, turn2 = [], []
+        for i in range(12):
+            turn1.append(s1.randint(0, 9 + i))
+            turn2.append(s2.randint(0, 9 + i))
+        s3 = mk()
+        first = [s3.randint(0, 9 + i) for i in range(6)]
+        mk()                                     # constructing another source must not rewind this one
+        rest = [s3.randint(0, 9 + i) for i in range(6, 12)]
+        for tag, got in (("interleaved-1", turn1), ("interleaved-2", turn2), ("after-another-was-built", first + rest)):
+            batch.trace(f"T/genestream/{cname}/{tag}", [{"e": "stream", "a": alone, "b": got}])
+            stats["events"] += 1
     paths = batch.shards(a.out, a.shards)
     write_summary(a.out, {"batches": paths, "traces": len(batch.traces), "events": stats["events"]})
 
